@@ -23,7 +23,7 @@ echo "demo without change: exit $D0; with change: exit $D1; tests with change: $
 git -C /repo apply $OUT/patch.diff
 RES=""
 for id in $PID "$@"; do
-  timeout 900 VERIF_SCRATCH_EVIDENCE=1 ./check $id --tier quick > $OUT/check_$id.log 2>&1
+  timeout 900 env VERIF_SCRATCH_EVIDENCE=1 ./check $id --tier quick > $OUT/check_$id.log 2>&1
   rc=$?
   keys=$(grep "key=" $OUT/check_$id.log | sed 's/^ *key=\([^:]*:[^ ]*\).*/\1/' | sort -u | head -5 | tr '\n' ' ')
   echo "check $id rc=$rc $keys"
